@@ -1,15 +1,27 @@
 // C20 -- runtime residue: the scheduler as ReflectServer drives it (reflector/ReflectServer.cpp: GetPulseTimeAux for
-// every session/gateway/factory/policy before the wait, PulseAux after it), against the REAL clock.
-// A real in-process ReflectServer gets sessions on socket pairs; each session owns a small tree of timer nodes
-// (children and grandchildren via PutPulseChild) with one-shot and repeating times, some of which are re-scheduled
-// from another timer's Pulse() via InvalidatePulseTime(), detached, or destroyed.  The property's own statement is
-// evaluated on what the callbacks observe:
-//    never early          : Pulse() is never entered before the time the node asked for (callback time and real clock)
-//    the time asked for   : args.GetScheduledTime() is what the node's last GetPulseTime() returned
-//    asked again          : GetPulseTime() is called again after every Pulse() and after every InvalidatePulseTime()
-//    nothing is lost      : every requested finite time is eventually served (the loop runs until then, bounded)
-//    wake-up time         : the next-pulse time ServerProcessLoop() reports is never later than the earliest pending request
-// Only lower bounds on real time are checked, so a loaded machine cannot make it fail.  One line `k ok ...` per case.
+// every serviced root before the wait, PulseAux after it), against the REAL clock.
+//
+// ROSTER (kept in step with checks/c20.py PULSE_NODE_KINDS): every kind of PulseNode the ReflectServer services gets
+// instrumented instances with scripted GetPulseTime()/Pulse():
+//    session        AbstractReflectSession subclass (the session itself is a timer)
+//    gateway        the session's AbstractMessageIOGateway (MessageIOGateway subclass)
+//    factory        ReflectSessionFactory registered with PutAcceptFactory()
+//    server         the ReflectServer object itself (subclass overriding GetPulseTime/Pulse)
+//    outpolicy      AbstractSessionIOPolicy installed with SetOutputPolicy(), shared by several sessions, holders idle or busy
+//    inpolicy       AbstractSessionIOPolicy installed with SetInputPolicy(),  shared by several sessions, holders idle or busy
+//    child          plain PulseNode children/grandchildren (PutPulseChild) of each of the above
+// Timers are one-shot, repeating, in the past, equal, or "never"; some are pulled earlier via InvalidatePulseTime(),
+// detached+re-attached or destroyed from inside another timer's Pulse().
+//
+// ORACLE (the property's own statement, on what the callbacks observe; only lower bounds on real time and
+// clock-independent facts are used, so a loaded machine cannot make it fail):
+//    never early        Pulse() is never entered before the time the node asked for (callback time and real clock)
+//    the time asked for args.GetScheduledTime() is what the node's last GetPulseTime() returned
+//    asked              after every server cycle every serviced node with a pending request has been asked for its time
+//                       (unless it fired / was withdrawn in that very cycle) -- clock-independent
+//    wake-up time       the next-pulse time ServerProcessLoop() reports is not later than any such node's request
+//    nothing is lost    every requested finite time is eventually served (bounded loop)
+// One line `k ok kinds=<roster counts> served=<kinds whose Pulse() ran>` per case, or `k ORACLE FAIL <kind>: <why>`.
 #include <stdio.h>
 #include <stdlib.h>
 #include <string>
@@ -18,155 +30,272 @@
 
 #include "reflector/ReflectServer.h"
 #include "reflector/AbstractReflectSession.h"
+#include "reflector/AbstractSessionIOPolicy.h"
+#include "iogateway/MessageIOGateway.h"
 #include "system/SetupSystem.h"
+#include "syslog/SysLog.h"
 #include "util/NetworkUtilityFunctions.h"
 #include "util/PulseNode.h"
 
 using namespace muscle;
 
 static std::vector<std::string> g_fail;
-static void fail(const std::string & s) {if (g_fail.size() < 20) g_fail.push_back(s);}
+static void fail(const std::string & kind, const std::string & s) {if (g_fail.size() < 20) g_fail.push_back(kind + ": " + s);}
 static uint32 g_rng = 1;
 static uint32 rnd(uint32 n) {g_rng = g_rng*1664525u + 1013904223u; return (g_rng>>8)%n;}
 
-class Timer;
-static std::vector<Timer *> g_timers;   // all live timers
+enum {K_SESSION=0, K_GATEWAY, K_FACTORY, K_SERVER, K_OUTPOLICY, K_INPOLICY, K_CHILD, NUM_KINDS};
+static const char * g_kindNames[NUM_KINDS] = {"session", "gateway", "factory", "server", "outpolicy", "inpolicy", "child"};
 
+// the scripted timer behind every instrumented node
+struct Core;
+extern bool g_servedKinds[16];
+struct Core
+{
+   Core(int kind) : _kind(kind), _next(0), _asked(false), _lastReturned(MUSCLE_TIME_NEVER), _fired(0), _period(0), _repeats(0),
+                    _serviced(true), _touched(false), _exactPrev(true) {}
+   const char * Kind() const {return g_kindNames[_kind];}
+   uint64 Pending() const {return (_next < _times.size()) ? _times[_next] : MUSCLE_TIME_NEVER;}
+
+   uint64 OnGet(uint64 prevArg)
+   {
+      if ((_exactPrev)&&(_asked)&&(prevArg != _lastReturned)) fail(Kind(), "GetPulseTime received a previous value that is not what the node returned last");
+      _asked = true; _lastReturned = Pending();
+      return _lastReturned;
+   }
+   // returns true iff this timer was due and has been served
+   bool OnPulse(uint64 sched, uint64 cb)
+   {
+      const uint64 real = GetRunTime64();
+      if (_next >= _times.size()) {if (_exactPrev) fail(Kind(), "Pulse called on a node that asked for never"); return false;}
+      if ((!_exactPrev)&&(cb < _times[_next])) return false;   // composite node pulsed for its base class's sake
+      if (!_asked) fail(Kind(), "Pulse called although the node has not been asked since it fired / was invalidated");
+      if ((_exactPrev)&&(sched != _times[_next])) fail(Kind(), "Pulse called with a scheduled time the node did not ask for");
+      if (sched > _times[_next]) fail(Kind(), "Pulse called with a scheduled time later than the one asked for");
+      if (cb < _times[_next]) fail(Kind(), "Pulse called before the requested time (callback time)");
+      if (real < _times[_next]) fail(Kind(), "Pulse called before the requested time (real clock)");
+      _fired++; _next++; _asked = false; _touched = true; g_servedKinds[_kind] = true;
+      if ((_repeats > 0)&&(_next >= _times.size())) {_repeats--; _times.push_back(sched+_period);}
+      return true;
+   }
+
+   int _kind; std::vector<uint64> _times; size_t _next; bool _asked; uint64 _lastReturned; int _fired;
+   uint64 _period; int _repeats;
+   bool _serviced;   // attached below something the server services
+   bool _touched;    // fired or withdrawn during the current server cycle
+   bool _exactPrev;  // false for nodes whose GetPulseTime is min(base class, ours)
+};
+bool g_servedKinds[16];
+static std::vector<Core *> g_cores;
+static void reg(Core * c) {g_cores.push_back(c);}
+static void unreg(Core * c) {for (size_t i=0; i<g_cores.size(); i++) if (g_cores[i] == c) {g_cores.erase(g_cores.begin()+i); break;}}
+
+class Timer;
+static std::vector<Timer *> g_timers;
+
+// child: a plain PulseNode hung below any serviced node
 class Timer : public PulseNode
 {
 public:
-   Timer(int id) : _id(id), _next(0), _asked(false), _lastReturned(MUSCLE_TIME_NEVER), _fired(0), _period(0), _repeats(0), _victim(NULL), _victimAction(0), _nkids(0) {}
-   virtual ~Timer() {for (size_t i=0; i<g_timers.size(); i++) if (g_timers[i] == this) {g_timers.erase(g_timers.begin()+i); break;}}
-
-   uint64 Pending() const {return (_next < _times.size()) ? _times[_next] : MUSCLE_TIME_NEVER;}
-
-   virtual uint64 GetPulseTime(const PulseArgs & args)
-   {
-      if ((args.GetScheduledTime() != _lastReturned)&&(_asked)) fail("GetPulseTime received a previous value that is not what the node returned last");
-      _asked = true;
-      _lastReturned = Pending();
-      return _lastReturned;
-   }
-
+   Timer() : _c(K_CHILD), _victim(NULL), _victimAction(0), _nkids(0) {reg(&_c); g_timers.push_back(this);}
+   virtual ~Timer() {unreg(&_c); for (size_t i=0; i<g_timers.size(); i++) if (g_timers[i] == this) {g_timers.erase(g_timers.begin()+i); break;}}
+   virtual uint64 GetPulseTime(const PulseArgs & args) {return _c.OnGet(args.GetScheduledTime());}
    virtual void Pulse(const PulseArgs & args)
    {
-      const uint64 real = GetRunTime64();
-      if (!_asked) fail("Pulse called although the node has not been asked since it fired / was invalidated");
-      if (_next >= _times.size()) {fail("Pulse called on a node that asked for never"); return;}
-      if (args.GetScheduledTime() != _times[_next]) fail("Pulse called with a scheduled time the node did not ask for");
-      if (args.GetCallbackTime() < _times[_next]) fail("Pulse called before the requested time (callback time)");
-      if (real < _times[_next]) fail("Pulse called before the requested time (real clock)");
-      _fired++; _next++;
-      _asked = false;   // must be asked again before the next Pulse
-      if ((_repeats > 0)&&(_next >= _times.size())) {_repeats--; _times.push_back(args.GetScheduledTime()+_period);}
+      if (!_c.OnPulse(args.GetScheduledTime(), args.GetCallbackTime())) return;
       if (_victim)
       {
          Timer * v = _victim; _victim = NULL;
          bool alive = false; for (size_t i=0; i<g_timers.size(); i++) if (g_timers[i] == v) alive = true;
          if (alive)
          {
-            if (_victimAction == 0) {v->_times.insert(v->_times.begin()+v->_next, real+2000); v->_asked = false; v->InvalidatePulseTime();}     // pull it earlier
-            else if (_victimAction == 1) {if (v->GetPulseParent()) {PulseNode * p = v->GetPulseParent(); p->RemovePulseChild(v); v->_asked = false; p->PutPulseChild(v);}}   // detach + re-attach
-            else if ((v != this)&&(v->_nkids == 0)) {v->_times.resize(v->_next); delete v;}   // (a childless node cannot have a PulseAux frame below which we run)                                                                        // destroy
+            if (_victimAction == 0) {v->_c._times.insert(v->_c._times.begin()+v->_c._next, GetRunTime64()+2000); v->_c._asked = false; v->_c._touched = true; v->InvalidatePulseTime();}
+            else if (_victimAction == 1) {if (v->GetPulseParent()) {PulseNode * p = v->GetPulseParent(); p->RemovePulseChild(v); v->_c._asked = false; v->_c._touched = true; p->PutPulseChild(v);}}
+            else if ((v != this)&&(v->_nkids == 0)) delete v;   // (a childless node cannot have a PulseAux frame below which we run)
          }
       }
    }
+   Core _c; Timer * _victim; int _victimAction; int _nkids;
+};
 
-   int _id; size_t _next; bool _asked; uint64 _lastReturned; int _fired;
-   std::vector<uint64> _times; uint64 _period; int _repeats;
-   Timer * _victim; int _victimAction; int _nkids;
+class TGateway : public MessageIOGateway
+{
+public:
+   TGateway() : _c(K_GATEWAY) {_c._exactPrev = false; reg(&_c);}
+   virtual ~TGateway() {unreg(&_c);}
+   virtual uint64 GetPulseTime(const PulseArgs & args) {return muscleMin(MessageIOGateway::GetPulseTime(args), _c.OnGet(args.GetScheduledTime()));}
+   virtual void Pulse(const PulseArgs & args) {MessageIOGateway::Pulse(args); (void) _c.OnPulse(args.GetScheduledTime(), args.GetCallbackTime());}
+   Core _c;
 };
 
 class TSession : public AbstractReflectSession
 {
 public:
-   TSession() : _own(-1) {}
+   TSession() : _c(K_SESSION), _pretendOutput(false), _readyForInput(true), _gw(NULL) {_c._exactPrev = false; reg(&_c);}
+   virtual ~TSession() {unreg(&_c);}
    virtual void MessageReceivedFromGateway(const MessageRef &, void *) {}
+   virtual AbstractMessageIOGatewayRef CreateGateway() {_gw = new TGateway; _gw->_c._times = _gwTimes; return AbstractMessageIOGatewayRef(_gw);}
+   virtual bool HasBytesToOutput() const {return _pretendOutput || AbstractReflectSession::HasBytesToOutput();}
+   virtual bool IsReadyForInput() const {return _readyForInput && AbstractReflectSession::IsReadyForInput();}
    virtual status_t AttachedToServer()
    {
       MRETURN_ON_ERROR(AbstractReflectSession::AttachedToServer());
-      for (size_t i=0; i<_roots.size(); i++) PutPulseChild(_roots[i]);
+      for (size_t i=0; i<_kids.size(); i++) PutPulseChild(_kids[i]);
       return B_NO_ERROR;
    }
    virtual void AboutToDetachFromServer() {ClearPulseChildren(); AbstractReflectSession::AboutToDetachFromServer();}
-   // the session is itself a timer as well
-   virtual uint64 GetPulseTime(const PulseArgs & args) {return muscleMin(AbstractReflectSession::GetPulseTime(args), _own.Pending());}
-   virtual void Pulse(const PulseArgs & args)
-   {
-      AbstractReflectSession::Pulse(args);
-      if (args.GetCallbackTime() >= _own.Pending()) {_own._fired++; _own._next++;}
-   }
-   std::vector<Timer *> _roots;
-   Timer _own;   // used as a plain record (never attached)
+   virtual uint64 GetPulseTime(const PulseArgs & args) {return muscleMin(AbstractReflectSession::GetPulseTime(args), _c.OnGet(args.GetScheduledTime()));}
+   virtual void Pulse(const PulseArgs & args) {AbstractReflectSession::Pulse(args); (void) _c.OnPulse(args.GetScheduledTime(), args.GetCallbackTime());}
+   Core _c; bool _pretendOutput, _readyForInput; std::vector<Timer *> _kids; TGateway * _gw; std::vector<uint64> _gwTimes;
 };
+
+class TFactory : public ReflectSessionFactory
+{
+public:
+   TFactory() : _c(K_FACTORY) {reg(&_c);}
+   virtual ~TFactory() {unreg(&_c);}
+   virtual AbstractReflectSessionRef CreateSession(const String &, const IPAddressAndPort &) {return AbstractReflectSessionRef();}
+   virtual uint64 GetPulseTime(const PulseArgs & args) {return _c.OnGet(args.GetScheduledTime());}
+   virtual void Pulse(const PulseArgs & args) {(void) _c.OnPulse(args.GetScheduledTime(), args.GetCallbackTime());}
+   Core _c;
+};
+
+class TPolicy : public AbstractSessionIOPolicy
+{
+public:
+   TPolicy(bool input) : _c(input ? K_INPOLICY : K_OUTPOLICY) {reg(&_c);}
+   virtual ~TPolicy() {unreg(&_c);}
+   virtual void PolicyHolderAdded(const PolicyHolder &)   {}
+   virtual void PolicyHolderRemoved(const PolicyHolder &) {}
+   virtual void BeginIO(uint64) {}
+   virtual bool OkayToTransfer(const PolicyHolder &) {return true;}
+   virtual uint32 GetMaxTransferChunkSize(const PolicyHolder &) {return MUSCLE_NO_LIMIT;}
+   virtual void BytesTransferred(const PolicyHolder &, uint32) {}
+   virtual void EndIO(uint64) {}
+   virtual uint64 GetPulseTime(const PulseArgs & args) {return _c.OnGet(args.GetScheduledTime());}
+   virtual void Pulse(const PulseArgs & args) {(void) _c.OnPulse(args.GetScheduledTime(), args.GetCallbackTime());}
+   Core _c;
+};
+
+class TServer : public ReflectServer
+{
+public:
+   TServer() : _c(K_SERVER) {reg(&_c);}
+   virtual ~TServer() {unreg(&_c);}
+   virtual uint64 GetPulseTime(const PulseArgs & args) {return _c.OnGet(args.GetScheduledTime());}
+   virtual void Pulse(const PulseArgs & args) {(void) _c.OnPulse(args.GetScheduledTime(), args.GetCallbackTime());}
+   Core _c;
+};
+
+static void script(Core & c, uint64 t0, long spacing, bool forceFinite)
+{
+   const int kind = forceFinite ? (2+rnd(4)) : rnd(6);
+   if (kind == 0) {/* never */}
+   else if (kind == 1) c._times.push_back(t0 > 50000 ? t0-50000 : 0);                                        // in the past: as soon as possible
+   else if (kind == 2) {c._times.push_back(t0 + rnd(12)*spacing); c._period = spacing*(1+rnd(3)); c._repeats = 1+rnd(3);}
+   else {c._times.push_back(t0 + rnd(12)*spacing); if (rnd(2)) c._times.push_back(c._times[0] + rnd(5)*spacing);}   // possibly equal times
+}
 
 static bool run_case(int k, const std::string & spec)
 {
-   // spec: seed;sessions;timersPerSession;spacingMicros
-   int seed = 1, nsess = 2, per = 4; long spacing = 3000;
+   // spec: seed;sessions;timersPerHost;spacingMicros
+   int seed = 1, nsess = 2, per = 3; long spacing = 3000;
    sscanf(spec.c_str(), "%d;%d;%d;%ld", &seed, &nsess, &per, &spacing);
-   g_rng = (uint32) seed; g_fail.clear();
-   int expected = 0, total = 0;
+   g_rng = (uint32) seed; g_fail.clear(); for (int i=0; i<16; i++) g_servedKinds[i] = false;
+   int kinds[NUM_KINDS]; for (int i=0; i<NUM_KINDS; i++) kinds[i] = 0;
    {
-      ReflectServer srv;
+      // policies outlive the sessions that hold them
+      TPolicy outPol(false), inPol(true), outPol2(false);
+      TServer srv;
       std::vector<AbstractReflectSessionRef> sessions; std::vector<ConstSocketRef> peers;
       const uint64 t0 = GetRunTime64() + 20000;
       std::vector<Timer *> all;
-      for (int s=0; s<nsess; s++)
+
+      // children of a host: a few timers, some of them grandchildren
+      struct H {static void kids(PulseNode * host, std::vector<Timer *> * deferTo, int per, uint64 t0, long spacing, std::vector<Timer *> & all)
       {
-         TSession * ts = new TSession; AbstractReflectSessionRef ref(ts);
-         ts->_own._times.push_back(t0 + rnd(10)*spacing);
          Timer * prev = NULL;
          for (int i=0; i<per; i++)
          {
-            Timer * t = new Timer(s*100+i); g_timers.push_back(t); all.push_back(t);
-            const int kind = rnd(6);
-            if (kind == 0) {/* never */}
-            else if (kind == 1) t->_times.push_back(t0 > 50000 ? t0-50000 : 0);                      // in the past: as soon as possible
-            else if (kind == 2) {t->_times.push_back(t0 + rnd(12)*spacing); t->_period = spacing*(1+rnd(3)); t->_repeats = 1+rnd(3);}
-            else {t->_times.push_back(t0 + rnd(12)*spacing); if (rnd(2)) t->_times.push_back(t->_times[0] + rnd(5)*spacing);}   // possibly equal times
-            if ((prev)&&(rnd(3) == 0)) {prev->PutPulseChild(t); prev->_nkids++;}   // grandchild
-            else ts->_roots.push_back(t);
+            Timer * t = new Timer; all.push_back(t); script(t->_c, t0, spacing, false);
+            if ((prev)&&(rnd(3) == 0)) {prev->PutPulseChild(t); prev->_nkids++;}
+            else if (deferTo) deferTo->push_back(t);
+            else host->PutPulseChild(t);
             prev = t;
          }
+      }};
+
+      script(srv._c, t0, spacing, false);         H::kids(&srv, NULL, per, t0, spacing, all);
+      script(outPol._c, t0, spacing, true);       H::kids(&outPol, NULL, 1+rnd(2), t0, spacing, all);
+      script(inPol._c, t0, spacing, true);        H::kids(&inPol, NULL, 1+rnd(2), t0, spacing, all);
+      script(outPol2._c, t0, spacing, true);
+
+      TFactory * fac = new TFactory; ReflectSessionFactoryRef facRef(fac);
+      script(fac->_c, t0, spacing, false);        H::kids(fac, NULL, 1+rnd(2), t0, spacing, all);
+      if (srv.PutAcceptFactory(0, facRef, localhostIP).IsError()) {printf("%d ORACLE FAIL factory: PutAcceptFactory failed\n", k); return false;}
+
+      // which holders of the shared policies are busy:  0 = all idle, 1 = some busy, 2 = all busy
+      const int outMode = rnd(3), inMode = rnd(3);
+      for (int s=0; s<nsess; s++)
+      {
+         TSession * ts = new TSession; AbstractReflectSessionRef ref(ts);
+         script(ts->_c, t0, spacing, false);
+         {Core g(K_GATEWAY); script(g, t0, spacing, false); ts->_gwTimes = g._times; unreg(&g);}
+         H::kids(ts, &ts->_kids, per, t0, spacing, all);
+         ts->_pretendOutput = (outMode == 2)||((outMode == 1)&&(s%2 == 0));
+         ts->_readyForInput = (inMode == 2)||((inMode == 1)&&(s%2 == 0));
          ConstSocketRef a, b;
-         if (CreateConnectedSocketPair(a, b).IsError()) {printf("%d ORACLE FAIL could not create a socket pair\n", k); return false;}
+         if (CreateConnectedSocketPair(a, b).IsError()) {printf("%d ORACLE FAIL session: could not create a socket pair\n", k); return false;}
          peers.push_back(b);
-         if (srv.AddNewSession(ref, a).IsError()) {printf("%d ORACLE FAIL AddNewSession failed\n", k); return false;}
+         if (srv.AddNewSession(ref, a).IsError()) {printf("%d ORACLE FAIL session: AddNewSession failed\n", k); return false;}
+         ts->SetOutputPolicy(DummyAbstractSessionIOPolicyRef((s == nsess-1)&&(nsess > 2) ? outPol2 : outPol));   // the last session of a big case has a policy of its own
+         ts->SetInputPolicy(DummyAbstractSessionIOPolicyRef(inPol));
+         if (ts->_gw) H::kids(ts->_gw, NULL, 1, t0, spacing, all);
          sessions.push_back(ref);
       }
+      if (nsess <= 2) outPol2._c._times.clear();   // not installed anywhere: must not be expected to fire
       // some timers act on others from inside Pulse()
       for (size_t i=0; i+1<all.size(); i++) if (rnd(4) == 0) {all[i]->_victim = all[(i+1+rnd((uint32)all.size()-1))%all.size()]; all[i]->_victimAction = rnd(3);}
+      for (size_t i=0; i<g_cores.size(); i++) kinds[g_cores[i]->_kind]++;
 
       const uint64 deadline = GetRunTime64() + 10000000;   // 10 s
       while(GetRunTime64() < deadline)
       {
+         for (size_t i=0; i<g_cores.size(); i++) g_cores[i]->_touched = false;
          uint64 next = MUSCLE_TIME_NEVER;
-         if (srv.ServerProcessLoop(GetRunTime64()+5000, &next).IsError()) {fail("ServerProcessLoop returned an error"); break;}
-         // wake-up time: never later than the earliest pending request of an attached, asked timer
-         uint64 minPending = MUSCLE_TIME_NEVER; bool pending = false;
-         for (size_t i=0; i<g_timers.size(); i++)
+         if (srv.ServerProcessLoop(GetRunTime64()+3000, &next).IsError()) {fail("server", "ServerProcessLoop returned an error"); break;}
+         bool pending = false;
+         for (size_t i=0; i<g_cores.size(); i++)
          {
-            const Timer * t = g_timers[i];
-            if (t->Pending() != MUSCLE_TIME_NEVER) {pending = true; if ((t->_asked)&&(t->GetPulseParent())&&(t->Pending() < minPending)) minPending = t->Pending();}
+            const Core * c = g_cores[i];
+            if (c->Pending() == MUSCLE_TIME_NEVER) continue;
+            pending = true;
+            if ((!c->_serviced)||(c->_touched)) continue;
+            if (!c->_asked) fail(c->Kind(), "a serviced node with a pending request was not asked for its time by the server cycle");
+            else if (next > c->Pending()) fail(c->Kind(), "the next-pulse time reported by ServerProcessLoop is later than a pending request");
          }
-         for (size_t s=0; s<sessions.size(); s++) if (static_cast<TSession *>(sessions[s]())->_own.Pending() != MUSCLE_TIME_NEVER) pending = true;
-         if (next > minPending) fail("the next-pulse time reported by ServerProcessLoop is later than the earliest pending request");
-         if (!pending) break;
+         if ((!pending)||(!g_fail.empty())) break;
       }
-      for (size_t i=0; i<g_timers.size(); i++) {total += g_timers[i]->_fired; if (g_timers[i]->Pending() != MUSCLE_TIME_NEVER) fail("a requested time was never served (timer silently never fired)");}
-      for (size_t s=0; s<sessions.size(); s++) {TSession * ts = static_cast<TSession *>(sessions[s]()); total += ts->_own._fired; if (ts->_own.Pending() != MUSCLE_TIME_NEVER) fail("a session's own requested time was never served");}
-      expected = total;
-      // tear-down (sessions first, then the timers they do not own)
-      for (size_t s=0; s<sessions.size(); s++) sessions[s]()->EndSession();
+      for (size_t i=0; i<g_cores.size(); i++) if ((g_cores[i]->_serviced)&&(g_cores[i]->Pending() != MUSCLE_TIME_NEVER)&&(g_fail.empty()))
+         fail(g_cores[i]->Kind(), "a requested time was never served (timer silently never fired)");
+
+      // tear-down
+      for (size_t s=0; s<sessions.size(); s++) {sessions[s]()->SetOutputPolicy(AbstractSessionIOPolicyRef()); sessions[s]()->SetInputPolicy(AbstractSessionIOPolicyRef()); sessions[s]()->EndSession();}
       (void) srv.ServerProcessLoop(0);
-      sessions.clear(); peers.clear();
+      (void) srv.RemoveAcceptFactory(0);
+      sessions.clear(); peers.clear(); facRef.Reset();
       srv.Cleanup();
       while(!g_timers.empty()) delete g_timers[0];
    }
-   if (g_fail.empty()) printf("%d ok\n", k);
+   if (g_fail.empty())
+   {
+      printf("%d ok kinds=", k);
+      for (int i=0; i<NUM_KINDS; i++) printf("%s%s:%d", i?",":"", g_kindNames[i], kinds[i]);
+      printf(" served=");
+      {bool first = true; for (int i=0; i<NUM_KINDS; i++) if (g_servedKinds[i]) {printf("%s%s", first?"":",", g_kindNames[i]); first = false;}}
+      printf("\n");
+   }
    else for (size_t i=0; i<g_fail.size(); i++) {bool dup = false; for (size_t j=0; j<i; j++) if (g_fail[j] == g_fail[i]) dup = true; if (!dup) printf("%d ORACLE FAIL %s\n", k, g_fail[i].c_str());}
-   if (getenv("PULSE_SRV_DEBUG")) fprintf(stderr, "case %d: %d Pulse() calls served\n", k, expected);
    fflush(stdout);
    return true;
 }
@@ -174,6 +303,7 @@ static bool run_case(int k, const std::string & spec)
 int main()
 {
    CompleteSetupSystem css;
+   SetConsoleLogLevel(MUSCLE_LOG_CRITICALERROR);
    std::string line; int k = 0;
    while(std::getline(std::cin, line))
    {
